@@ -221,6 +221,8 @@ def gen_spatial(rng, n, tier):
         if all(X[i] == X[0] and Y[i] == Y[0] for i in range(k)):
             X[-1] += 3; Y[-1] += 4
         Z = [float(rng.choice([0, 1, 2, 10, 0.5])) for _ in range(k)]
+        if rng.random() < 0.04:                      # a receiver that never moved (same position and height at every fix): a polyline of length 0 has no abscissa ds, 2 ds ...: the first fix alone
+            X = [X[0]] * k; Y = [Y[0]] * k; Z = [Z[0]] * k
         base = rng.choice([100, 100, 100, 4107542390, 4107542400 + 86400 * 40, 951782390])
         byear = rng.choice([1980, 1972, 1999]) if rng.random() < 0.12 else None
         if byear:
